@@ -65,6 +65,7 @@ class G:
         self.pair = profile == 'pair'
         self.adv_next = {'c': 2, 's': 1}       # next stream id the harness peer would open towards x
         self.lost = False
+        self.stop = False
         self.unacked = {'c': {}, 's': {}}      # bytes received and not yet acknowledged, per stream (an input heuristic only)
 
     # ------------------------------------------------------------ plumbing
@@ -73,6 +74,11 @@ class G:
             s = dict(s, c=dict(s['c'], sz=True))      # observe the sizes of the frames that carry the header block
         obs = self.sess.step(replay.resolve(s, self.cat))
         s = dict(s)
+        if self.chunk_seed is not None and s['a'] in ('recv', 'dlv') and obs['r']['c'] != 'ok':
+            # fed in pieces, the input stops at the piece that raised: the rest of the input buffer is not comparable with the
+            # one-call prediction, and the recording ends here
+            obs = dict(obs, z=dict(obs['z'], pend='unreadable', hb='unreadable'))
+            self.stop = True
         if s['a'] == 'call' and s['c'].get('sz') and self.sess.last_block_lens:
             # the length of the HPACK block the call wrote is logged with the call: the specification does not model
             # Huffman / dynamic-table coding, it is told the length and predicts how the block is cut into frames
@@ -98,7 +104,8 @@ class G:
 
     def streams(self, x):
         z = self.z(x)
-        return z['streams'] if isinstance(z.get('streams'), list) else []
+        ss = z['streams'] if isinstance(z.get('streams'), list) else []
+        return [dict(t, hs=t['hs'] == 'T', ts=t['ts'] == 'T', hr=t['hr'] == 'T', tr=t['tr'] == 'T') for t in ss]
 
     def pick_sid(self, x, prefer_open=True, kind=None):
         """A stream id for a step on endpoint x: mostly a live one, sometimes closed / unknown / zero."""
@@ -747,7 +754,7 @@ class G:
                     obs = self.recv(x, fs)
                     if obs['r']['c'] != 'ok':
                         self.lost = True
-            if self.closed_long_enough():
+            if self.stop or self.closed_long_enough():
                 break
         return self.steps
 
